@@ -11,6 +11,7 @@ pub enum CapsuleKind {
 }
 
 impl CapsuleKind {
+    #[cfg_attr(kani, kani::ensures(|r: &Option<Self>| r.is_some() == (id.into_inner() == crate::verif_kani::spec::CAPSULE_CLOSE_WT_SESSION)))]
     const fn parse(id: VarInt) -> Option<Self> {
         match id {
             capsule_types::CAPSULE_TYPE_CLOSE_WEBTRANSPORT_SESSION => {
@@ -68,6 +69,11 @@ pub mod capsules {
 }
 
 mod close_wt_session;
+
+/// Verification harnesses with access to this module's private items (only under `cargo kani`).
+#[cfg(kani)]
+#[path = "/verif/kani/proto/in_capsule.rs"]
+pub(crate) mod verif_kani;
 
 #[cfg(test)]
 mod tests {
